@@ -89,6 +89,11 @@ SYSTEM_ENVS = [({}, []), ({'LDLIBS': '-lm'}, ['m']), ({'LDLIBS': '-lz -lm', 'LDF
                ({'LDFLAGS': '-Wl,-O1 -Wl,--hash-style=gnu'}, ['m']), ({'LDLIBS': '-lm -lz'}, ['m', 'z'])]
 
 
+# (version, soversion) pairs of versioned shared libraries: lib<name>.so.<version> is the file, lib<name>.so.<soversion>
+# (the soname) and lib<name>.so (what a link step names) are symbolic links created by steps of the build
+VERSIONS = [('1.2.3', '1'), ('2.0', '2'), ('0.9.1', '0'), ('3.1.4', '3.1'), ('10.0.0-rc1', '10')]
+
+
 def env_syslibs(env):
     """the system libraries that the LDLIBS of a configure environment names"""
     return [w[2:] for w in env.get('LDLIBS', '').split() if w.startswith('-l') and w[2:] in SYSLIBS]
@@ -107,22 +112,27 @@ def pkg_strings(p):
 class Node:
     """lopts: list of (tag, id): (0, k) STR_POOL[k]; (1, k) option object k; (3, text) a literal token.
     feat (system-level projects only): what the link options of this node mean for its C sources, see make_feat."""
-    __slots__ = ('kind', 'deps', 'lopts', 'pkgs', 'dir', 'uses', 'exe', 'feat')
+    __slots__ = ('kind', 'deps', 'lopts', 'pkgs', 'dir', 'uses', 'exe', 'feat', 'ver')
 
-    def __init__(self, kind, deps, lopts, pkgs, dir, uses, exe, feat=None):
+    def __init__(self, kind, deps, lopts, pkgs, dir, uses, exe, feat=None, ver=None):
         self.kind, self.deps, self.lopts, self.pkgs, self.dir, self.uses, self.exe = kind, deps, lopts, pkgs, dir, uses, exe
         self.feat = feat or {}
+        # (version, soversion) of the shared library of the node (version=/soversion= of shared_library()/library()): the
+        # library file is lib<name>.so.<version>, reached through the links lib<name>.so.<soversion> and lib<name>.so
+        self.ver = tuple(ver) if ver else None
 
     def to_json(self):
-        d = {k: getattr(self, k) for k in self.__slots__ if k != 'feat'}
+        d = {k: getattr(self, k) for k in self.__slots__ if k not in ('feat', 'ver')}
         if self.feat:
             d['feat'] = self.feat
+        if self.ver:
+            d['ver'] = list(self.ver)
         return d
 
     @staticmethod
     def from_json(d):
         return Node(d['kind'], [tuple(x) for x in d['deps']], [tuple(x) for x in d['lopts']], d['pkgs'], d['dir'],
-                    d['uses'], d['exe'], d.get('feat'))
+                    d['uses'], d['exe'], d.get('feat'), d.get('ver'))
 
     def opt_texts(self):
         """the link options as written in the build script: text for a string token, None for an option object"""
@@ -165,6 +175,20 @@ class Project:
 
     def has_static(self, i):
         return self.eff_kind(i) in ('static', 'dual')
+
+    def ver_of(self, i):
+        """(version, soversion) of the shared library that node i produces, None when it is not versioned (or when the
+        node produces no shared library at all: version= of a library() that comes out static means nothing)"""
+        n = self.nodes[i]
+        return n.ver if (n.ver and not n.exe and self.eff_kind(i) in ('shared', 'dual')) else None
+
+    def shared_files(self, i):
+        """the file names that denote the shared library of node i in its output directory: the library file first,
+        then the links to it (soname, link name)"""
+        v = self.ver_of(i)
+        if not v:
+            return ['libn%d.so' % i]
+        return ['libn%d.so.%s' % (i, v[0]), 'libn%d.so.%s' % (i, v[1]), 'libn%d.so' % i]
 
     def strtab(self):
         """the literal tokens of the project that are not in STR_POOL, in order of first occurrence"""
@@ -404,7 +428,9 @@ def gen_project(rng, rep=None, system=False, max_libs=7, mode=None, sysenv=None)
             pkgs = [rng.randrange(N_PKG) for _ in range(rng.choice([0, 0, 0, 1, 2]))]
         dset = sorted(set(j for j, _ in deps))
         uses = [j for j in dset if exe or rng.random() < 0.75]
-        nodes.append(Node(kind, deps, lopts, pkgs, rng.choice(DIRS), uses, exe, feat))
+        # versioned shared libraries (version=/soversion=), in every kind that can come out shared and in every directory
+        ver = rng.choice(VERSIONS) if (not exe and kind != 'static' and rng.random() < 0.4) else None
+        nodes.append(Node(kind, deps, lopts, pkgs, rng.choice(DIRS), uses, exe, feat, ver))
     p = Project(mode, nodes)
     if system and sysenv is not None:
         add_system_env(p, rng, sysenv[0], sysenv[1])
@@ -415,6 +441,9 @@ def gen_project(rng, rep=None, system=False, max_libs=7, mode=None, sysenv=None)
                 rep.count('kind:' + n.kind)
             if any(w for _, w in n.deps):
                 rep.count('links-with-whole-archive')
+        for i in range(len(nodes)):
+            if p.ver_of(i):
+                rep.count('versioned-shared-library:' + ('top directory' if not nodes[i].dir else 'nested directory'))
         rep.count('libs:%d' % nlibs)
     return p
 
@@ -473,9 +502,9 @@ CORPUS = [
 ]
 
 
-def _sysnode(i, kind, deps, dir, uses, exe=False, spec=(), pkg=None):
+def _sysnode(i, kind, deps, dir, uses, exe=False, spec=(), pkg=None, ver=None):
     lopts, feat = make_feat(i, exe, list(spec), pkg)
-    return Node(kind, deps, lopts, [], dir, uses, exe, feat)
+    return Node(kind, deps, lopts, [], dir, uses, exe, feat, ver)
 
 
 def system_corpus():
@@ -526,6 +555,19 @@ def system_corpus():
     add_system_env(p, random.Random(0), {'LDLIBS': '-lz -lm'}, [])
     p.decoys = [('lib/sub', 'm'), ('lib', 'z'), ('', 'm')]
     res.append(p)
+    # versioned shared libraries (file + soname link + link name) in the top directory and in nested ones, of every kind
+    # that can come out shared, linked directly, through another versioned library, through an archive and whole-archived
+    # into one; programs in other directories
+    for mode in SYSTEM_MODES[:2]:
+        res.append(Project(mode, [
+            _sysnode(0, 'shared', [], 'a/b/c', [], ver=('1.2.3', '1')),
+            _sysnode(1, 'shared', [(0, False)], '', [0], ver=('2.0', '2')),
+            _sysnode(2, 'dual', [(0, False)], 'lib/sub', [0], ver=('0.9.1', '0'), spec=[('u', 4)]),
+            _sysnode(3, 'static', [(1, False)], 'x.y', [1], spec=[('x', 8)]),
+            _sysnode(4, 'default', [(3, True), (2, False)], 'lib', [2, 3], ver=('3.1.4', '3.1')),
+            _sysnode(5, 'shared', [(4, False), (1, False)], 'bin', [1, 4], exe=True),
+            _sysnode(6, 'shared', [(2, False), (3, False)], '', [2, 3], exe=True),
+            _sysnode(7, 'shared', [(0, False)], 'a/b', [0], exe=True, spec=[('w', 5)])]))
     # the configure-mode dimension: one shape under every --enable/--disable-shared/static combination that can build
     # it.  Archives reach shared libraries in every way: listed plainly, forwarded by another archive, through a
     # library() whose kind the mode decides, through a dual-use library, and whole-archived
@@ -614,6 +656,8 @@ class Real:
             kw = {'libs': libs, 'link_options': lo, 'packages': [self.pkgs[p] for p in n.pkgs]}
             name = posixpath.join(n.dir, 'n%d' % i)
             src = ['n%d.c' % i]
+            if n.ver and not n.exe and n.kind != 'static':
+                kw.update(version=n.ver[0], soversion=n.ver[1])
             if n.exe:
                 o = ctx['executable'](name, src, **kw)
             elif n.kind == 'default':
@@ -627,6 +671,11 @@ class Real:
             self.objs.append(o)
             for f in (o.all if isinstance(o, file_types.DualUseLibrary) else [o]):
                 self.path_ids[f.path.suffix] = i
+                # a versioned shared library is known by three names: what the builtin hands out is the link name, which
+                # leads to the soname link, which leads to the file the link step makes
+                while isinstance(f, file_types.LinkLibrary):
+                    f = f.library
+                    self.path_ids[f.path.suffix] = i
                 self.steps.append((i, isinstance(f, file_types.StaticLibrary), f.creator, f))
 
     def archive(self, i):
@@ -636,7 +685,7 @@ class Real:
 
     def lib_id(self, lib):
         t = type(lib).__name__
-        v = {'SharedLibrary': 0, 'StaticLibrary': 1, 'WholeArchive': 2}[t]
+        v = {'SharedLibrary': 0, 'VersionedSharedLibrary': 0, 'LinkLibrary': 0, 'StaticLibrary': 1, 'WholeArchive': 2}[t]
         return 3 * self.path_ids[lib.path.suffix] + v
 
     def enc_opt(self, o):
@@ -1020,7 +1069,8 @@ def oracle_project(rep, proj, fixed):
                             n, x, want), {'project': proj.to_json(), 'node': n, 'kind': 'rpath', 'entries': entries},
                             classes=classify(proj, fixed, 'rpath'))
         so = [f for f in fl if f.startswith('-Wl,-soname,')]
-        if not proj.nodes[n].exe and (len(so) != 1 or so[0] != '-Wl,-soname,libn%d.so' % n):
+        # (of a versioned library the soname is the name of the soversion link)
+        if not proj.nodes[n].exe and (len(so) != 1 or so[0] != '-Wl,-soname,' + proj.shared_files(n)[-2:][0]):
             bad += 1
             rep.fail('shared library n%d: soname flag %r is not the bare file name' % (n, so),
                      {'project': proj.to_json(), 'node': n, 'kind': 'soname'}, classes=classify(proj, fixed, 'soname'))
@@ -1115,6 +1165,8 @@ def write_project(proj, src):
             fn = {'static': 'static_library', 'shared': 'shared_library', 'dual': 'library', 'default': 'library'}[n.kind]
             if n.kind == 'dual':
                 args += ", kind='dual'"
+            if n.ver and n.kind != 'static':
+                args += ", version=%r, soversion=%r" % n.ver
             lines.append('n%d = %s(%s)' % (i, fn, args))
     for k, (ddir, nm) in enumerate(proj.decoys):
         with open(os.path.join(src, 'decoy_%s.c' % nm), 'w') as f:
@@ -1137,7 +1189,7 @@ def link_lines(make_n_output, proj):
         if not m or ' -c ' in line:
             continue
         target = m.group(1).strip("'")
-        mt = re.search(r'(?:lib)?n(\d+)(\.so)?$', posixpath.basename(target))
+        mt = re.search(r'(?:lib)?n(\d+)(\.so(\.[-\w.]+)?)?$', posixpath.basename(target))
         if not mt:
             continue
         node = int(mt.group(1))
@@ -1165,7 +1217,7 @@ def link_argvs(make_n_output):
         m = re.search(r' -o (\S+)\s*$', line.strip())
         if not m or ' -c ' in line:
             continue
-        mt = re.search(r'(?:lib)?n(\d+)(\.so)?$', posixpath.basename(m.group(1).strip("'")))
+        mt = re.search(r'(?:lib)?n(\d+)(\.so(\.[-\w.]+)?)?$', posixpath.basename(m.group(1).strip("'")))
         if mt:
             try:
                 res[int(mt.group(1))] = shlex.split(line)
@@ -1374,11 +1426,46 @@ def system_project(rep, proj, fixed, keep=False):
                          'link command: %r' % (i, sorted(decoy_files & set(needed)), proj.env, needed, argvs.get(i)),
                          {'project': proj.to_json(), 'kind': 'bound-to-namesake', 'node': i, 'needed': needed,
                           'argv': argvs.get(i)}, classes=classify(proj, fixed, 'run'))
+        def links_ok(root, phase):
+            """Every name under which the build offers a shared library (the file itself, and of a versioned library
+            the soname link and the link name) denotes the library file that was built, wherever the build directory is;
+            and no symbolic link anywhere in the build tree dangles, is absolute or leads out of the tree."""
+            nonlocal bad
+            wrong = []
+            for i, n in enumerate(proj.nodes):
+                if n.exe or proj.eff_kind(i) not in ('shared', 'dual'):
+                    continue
+                names = proj.shared_files(i)
+                real = os.path.realpath(os.path.join(root, n.dir, names[0]))
+                for nm in names:
+                    fp = os.path.join(root, n.dir, nm)
+                    rep.count('sys:shared-library-name-checked:' + ('versioned' if len(names) > 1 else 'plain'))
+                    if not os.path.isfile(fp) or os.path.realpath(fp) != real:
+                        wrong.append((posixpath.join(n.dir, nm), os.readlink(fp) if os.path.islink(fp) else None))
+            for dp, dns, fns in os.walk(root):
+                for fn in dns + fns:
+                    fp = os.path.join(dp, fn)
+                    if os.path.islink(fp):
+                        rep.count('sys:symbolic-link-in-build-tree-checked')
+                        rel = os.path.relpath(fp, root)
+                        tgt = os.readlink(fp)
+                        inside = (os.path.realpath(fp) + '/').startswith(os.path.realpath(root) + '/')
+                        if (not os.path.exists(fp) or os.path.isabs(tgt) or not inside) and \
+                                not any(rel == w for w, _ in wrong):
+                            wrong.append((rel, tgt))
+            if wrong:
+                bad += 1
+                rep.fail('%s: %d names in the build tree do not lead to the library they stand for (name, link text): %r' % (
+                    phase, len(wrong), wrong[:6]),
+                    {'project': proj.to_json(), 'kind': 'run-links-' + phase, 'wrong': wrong[:40]},
+                    classes=classify(proj, fixed, 'run'))
+        links_ok(bld, 'in place')
         run_all(bld, 'in place')
         moved =os.path.join(d, 'moved', 'deeper', 'elsewhere')
         os.makedirs(os.path.dirname(moved))
         os.rename(bld, moved)
         shutil.rmtree(src)           # nothing may be picked up from the old locations
+        links_ok(moved, 'after moving the build directory')
         run_all(moved, 'after moving the build directory')
         return bad, dis
     finally:
